@@ -249,7 +249,7 @@ func CheckC19(c *Ctx) {
 	c.closeHelpers()
 	c.decodeTargets()
 	c.errorOrientation("reader/error-orientation", "asset", "helper")
-	c.errorTestedFirst("reader/error-tested", 35, "asset", "helper")
+	c.errorTestedFirst("reader/error-tested", 55, "asset", "helper")
 	c.errorsLookedAt("reader/error-dropped", map[string]string{}, "asset", "helper")
 	c.errorFallThrough("reader/error-fallthrough", "asset", "helper")
 	c.jsonArrayOpen("reader/json-array", 2, "asset", "helper")
